@@ -1390,19 +1390,31 @@ func main() {
 		}
 	}
 	// all priorities equal / all distinct / reversed
-	for n := 1; n <= 6; n++ {
-		for mode := 0; mode < 3; mode++ {
-			regs := []regOp{{generic: true, hs: []hspec{{0, markerPrio, 0}}}}
-			for t := 1; t <= n; t++ {
-				p := []int{0, t, -t}[mode]
-				regs = append(regs, regOp{generic: t%2 == 0, hs: []hspec{{4, p, t}}})
+	// group sizes well beyond a dozen too: a sort that is stable only on short slices (sort.Slice switches
+	// from insertion sort to pdqsort above 12 elements) must not be enough
+	for _, n := range []int{1, 2, 3, 4, 5, 6, 11, 12, 13, 14, 20, 33, 64} {
+		for mode := 0; mode < 4; mode++ {
+			for grouping := 0; grouping < 3; grouping++ { // alternating / all generic / all listeners of one id
+				if n <= 6 && grouping > 0 {
+					continue
+				}
+				regs := []regOp{{generic: true, hs: []hspec{{0, markerPrio, 0}}}}
+				for t := 1; t <= n; t++ {
+					p := []int{0, t, -t, t % 3}[mode]
+					g := []bool{t%2 == 0, true, false}[grouping]
+					regs = append(regs, regOp{generic: g, hs: []hspec{{4, p, t}}})
+				}
+				dispCase(o, "disp.priority-shapes", regs, []int32{4, 0, 4, 4, 0, 5}, nil)
 			}
-			dispCase(o, "disp.priority-shapes", regs, []int32{4, 0, 4, 4, 0, 5}, nil)
 		}
 	}
 	for i := 0; i < o.N(500, 10); i++ {
 		pool := genIDPool(r)
-		regs := genRegs(r, pool, 12)
+		maxH := 12
+		if i%4 == 3 {
+			maxH, pool = 60, pool[:1+r.Intn(2)] // large groups with many ties
+		}
+		regs := genRegs(r, pool, maxH)
 		ids := genStream(r, pool, r.Intn(30), r.Intn(6) == 0)
 		var fails map[[2]int]bool
 		cat := "disp.random"
